@@ -87,6 +87,12 @@ func (n *xnode) sexp() string {
 		return "C(" + n.kids[0].sexp() + "," + n.kids[1].sexp() + "," + els + ")"
 	case "J":
 		return "J(R" + n.s + "(" + n.kids[0].sexp() + "," + n.kids[1].sexp() + "))"
+	case "H": // a heredoc: s = "1" flush; the kids are the template tokens as the scanner yields them
+		var ps []string
+		for _, k := range n.kids {
+			ps = append(ps, k.sexp())
+		}
+		return "H" + n.s + "(" + strings.Join(ps, ",") + ")"
 	case "PB": // the body of a directive: always a template of its own
 		switch {
 		case len(n.kids) == 0:
@@ -219,7 +225,11 @@ func (n *xnode) src(r *gen.Rng, redundant bool) string {
 	case "O":
 		var ps []string
 		for i, k := range n.keys {
-			ps = append(ps, quoteHCL(k)+sp()+" = "+n.kids[i].src(r, redundant))
+			vs := n.kids[i].src(r, redundant)
+			if strings.Contains(vs, "EOT\n") { // the line end after the closing marker would end the item before the comma
+				vs = "(" + vs + ")"
+			}
+			ps = append(ps, quoteHCL(k)+sp()+" = "+vs)
 		}
 		return wrap("{" + sp() + strings.Join(ps, ", ") + sp() + "}")
 	case "I":
@@ -261,6 +271,25 @@ func (n *xnode) src(r *gen.Rng, redundant bool) string {
 		return wrap(out)
 	case "PB", "D", "J":
 		return n.tmplInner(r, redundant)
+	case "H":
+		var b strings.Builder
+		b.WriteString("<<")
+		if n.s == "1" {
+			b.WriteString("-")
+		}
+		b.WriteString("EOT\n")
+		for _, k := range n.kids {
+			if k.k == "S" {
+				b.WriteString(k.s) // no escapes in a heredoc; the generator keeps $ % out of the text
+			} else {
+				b.WriteString("${" + sp() + k.src(r, redundant) + sp() + "}")
+			}
+		}
+		b.WriteString(n.keys[0] + "EOT\n")
+		if redundant && r.Chance(1, 3) {
+			return "(" + b.String() + ")"
+		}
+		return b.String()
 	case "P":
 		var b strings.Builder
 		b.WriteByte('"')
@@ -757,12 +786,59 @@ func runC18(c *Ctx) {
 			return &xnode{k: "V", s: "b1"}
 		}
 	}
+	// a heredoc, plain or flush: lines with their own indentation, blank lines, lines that start with an interpolation
+	genHeredoc := func(d int) *xnode {
+		h := &xnode{k: "H", s: gen.Pick(r, []string{"0", "1", "1", "1"}), keys: []string{strings.Repeat(" ", r.Intn(5))}}
+		cur := ""
+		flushLit := func() {
+			if cur != "" {
+				h.kids = append(h.kids, &xnode{k: "S", s: cur})
+				cur = ""
+			}
+		}
+		base := gen.Pick(r, []string{"", "  ", "    ", "\t", "   "})
+		for ln := 0; ln < r.Intn(5); ln++ {
+			if r.Chance(1, 6) { // a blank line
+				cur = gen.Pick(r, []string{"", "", " ", "      ", "\t"}) + "\n"
+				flushLit()
+				continue
+			}
+			cur = gen.Pick(r, []string{base, base, base, base + "  ", base + " ", "", " ", "\t ", "\u00a0 "})
+			if r.Chance(1, 4) {
+				cur = ""
+			}
+			lit := r.Chance(2, 3)
+			for i := 0; i < 1+r.Intn(3); i++ {
+				if lit {
+					cur += gen.Pick(r, []string{"a", "b c", "x=", "-", "é", "line", " ", "\"q\"", "t\tu"})
+				} else {
+					flushLit()
+					h.kids = append(h.kids, gen.Pick(r, []func() *xnode{
+						func() *xnode { return &xnode{k: "V", s: gen.Pick(r, []string{"s1", "n1", "b1", "v"})} },
+						func() *xnode { return genNum(d - 1) },
+						func() *xnode { return genStr(d - 1) },
+						func() *xnode { return genAny(d - 1) },
+					})())
+					if last := h.kids[len(h.kids)-1]; last.k == "S" { // a kid S is literal text
+						h.kids[len(h.kids)-1] = &xnode{k: "V", s: "s1"}
+					}
+				}
+				lit = !lit
+			}
+			cur += "\n"
+			flushLit()
+		}
+		return h
+	}
 	genStr = func(d int) *xnode {
 		if d <= 0 || r.Chance(1, 3) {
 			if r.Chance(1, 3) {
 				return &xnode{k: "V", s: "s1"}
 			}
 			return &xnode{k: "S", s: gen.Pick(r, strs)}
+		}
+		if r.Chance(1, 5) {
+			return genHeredoc(d)
 		}
 		n := &xnode{k: "P"}
 		for i := 0; i < 1+r.Intn(3); i++ {
